@@ -244,15 +244,15 @@ def h_classification(eng):
     """exitClass: the state / input / output / constant / parameter / variable lists follow the prefixes"""
     g, A = setup(eng)
     from contracts.C10 import PrefixList
-    kinds = ["state", "constant", "parameter", "input", "output", None]
+    # prefix lists of the flat model: single keywords and the double ones flattening produces (annotate_states adds `state` to
+    # anything under der(), also to an input / parameter; outputs can be states; parameters can be outputs)
+    kinds = [["state"], ["constant"], ["parameter"], ["input"], ["output"], [], ["output", "state"], ["state", "output"], ["input", "state"],
+             ["parameter", "state"], ["parameter", "output"], ["constant", "state"], ["input", "output"]]
     shape = [kinds[eng.choice(len(kinds))] for _ in range(2)]
-    extra_state = bool(eng.choice(2))
     eng.input("prefixes", shape)
     syms = []
     for i, k in enumerate(shape):
-        pre = [k] if k else []
-        if k == "output" and extra_state:
-            pre = ["output", "state"]
+        pre = list(k)
         s = VObj(VClass("Symbol"), {"name": "v%d" % i, "prefixes": VList(pre), "order": 1 - i})
         ops.setitem(eng, g.fields["src"], s, "v%d" % i)
         syms.append(s)
